@@ -59,6 +59,9 @@ if fid == 'F-19':
     from costlib import count_calls
     c8, c16 = count_calls('a: ' * 8 + 'x'), count_calls('a: ' * 16 + 'x')
     out(c16 > 100 * c8, 'rebuild calls at depth 8: %d, at depth 16: %d' % (c8, c16))
+if fid == 'F-39':
+    text, errs, _ = apply_ops(w['doc'], w['ops'])
+    out(errs == [None, None] and text != w['doc'], 'result %r' % text)
 if fid == 'F-37':
     text, errs, _ = apply_ops(w['doc'], w['ops'])
     out(errs == [None] and not text.lstrip().startswith('let'), 'emitted %r' % text)
